@@ -25,3 +25,13 @@ package client
 //@   arith int
 //@   ensures len(x.nodes) == len(nodes) && forall i int :: 0 <= i && i < len(nodes) ==> x.nodes[i] == nodes[i]
 //@   modifies RoundRobin.nodes
+
+//@ func (*Random).Next(x)
+//@   requires len(x.nodes) > 0
+//@   ensures picks-configured-node: exists i int :: 0 <= i && i < len(x.nodes) && result == x.nodes[i]
+//@   modifies nothing
+
+//@ func (*LeastLoad).Next(x)
+//@   requires len(x.nodes) > 0
+//@   ensures picks-configured-node: exists i int :: 0 <= i && i < len(x.nodes) && result == old(x.nodes[i])
+//@   ensures keeps-the-pool: len(x.nodes) == old(len(x.nodes))
